@@ -301,8 +301,12 @@ pub fn inf_bound_history(variant: usize) -> Vec<(String, String)> {
     let equil = variant % 2 == 0;
     let infv = [f64::INFINITY, 1e30, f64::MAX, 1e20][(variant / 2) % 4];
     let mut out = vec![];
-    for presolve in [false, true] {
-        let res = catch_unwind(AssertUnwindSafe(|| -> Option<String> {
+    // the module-level bound at its default, and lowered before the solver is built (the cap follows the value in force)
+    for (presolve, bound_set, newv) in [(false, None, infv), (true, None, infv), (false, Some(1e6), infv), (true, Some(1e6), infv),
+                                        (false, Some(1e6), 1e9), (true, Some(1e6), 1e9)] {
+        let res = catch_unwind(AssertUnwindSafe(|| -> Option<(&'static str, String)> {
+            clarabel::default_infinity();
+            if let Some(bv) = bound_set { clarabel::set_infinity(bv); }
             let cur: [Vec<usize>; 4] = [vec![0; 3], vec![0; 2], vec![0; 3], vec![0; 3]];
             let mut p = seed.problem(&cur, equil);
             p.settings["presolve_enable"] = json!(presolve);
@@ -310,41 +314,83 @@ pub fn inf_bound_history(variant: usize) -> Vec<(String, String)> {
             let mut solver = DefaultSolver::new(&P, &p.q, &A, &p.b, &p.clarabel_cones(), p.settings());
             solver.solve();
             let mut b2 = p.b.clone();
-            b2[2] = infv;
+            b2[2] = newv;
             let r = res_name(solver.update_b(&b2));
-            if r != "Ok" { return Some(format!("update_b with an infinite entry returned {}", r)); }
+            if r != "Ok" { return Some(("update_b_infinite_entry_refused", format!("update_b with an infinite entry returned {}", r))); }
             // the internal right-hand side is E * min(b, bound), entry by entry, in the solver's own scaling
             let bound = clarabel::get_infinity();
             for i in 0..b2.len() {
                 let want = b2[i].min(bound) * solver.data.equilibration.e[i];
                 let got = solver.data.b[i];
-                if (got - want).abs() > 4.0 * f64::EPSILON * want.abs() {
-                    return Some(format!("after update_b set b[2] = {:e} the internal b[{}] = {:e} is not e * min(b, bound) = {:e}", infv, i, got, want));
+                if !((got - want).abs() <= 4.0 * f64::EPSILON * want.abs()) {
+                    return Some(("update_b_infinite_entry_uncapped", format!("after update_b set b[2] = {:e} (presolve {}, bound {:e}) the internal b[{}] = {:e} is not e * min(b, bound) = {:e}", newv, presolve, bound, i, got, want)));
                 }
             }
             solver.solve();
             let mut fresh = DefaultSolver::new(&P, &p.q, &A, &b2, &p.clarabel_cones(), p.settings());
             fresh.solve();
             let (s1, s2) = (&solver.solution, &fresh.solution);
+            // (with presolve enabled a fresh solver removes the row, the updated one can only keep it: the known finding)
+            let cls = if presolve { "update_introduces_infinite_bound" } else { "update_b_infinite_entry_differs_from_fresh" };
             if class_of(s1.status) != class_of(s2.status) {
-                return Some(format!("after update_b set b[2] = {:e} (presolve {}) the solver ends {:?} (x = {:?}) but a fresh solver on the same data ends {:?} (x = {:?})",
-                                    infv, presolve, s1.status, s1.x, s2.status, s2.x));
+                return Some((cls, format!("after update_b set b[2] = {:e} (presolve {}, bound {:e}) the solver ends {:?} (x = {:?}) but a fresh solver on the same data ends {:?} (x = {:?})",
+                                    newv, presolve, bound, s1.status, s1.x, s2.status, s2.x)));
             }
             if class_of(s1.status) == "solved" && (s1.obj_val - s2.obj_val).abs() > 1e-6 * (1.0 + s1.obj_val.abs().max(s2.obj_val.abs())) {
-                return Some(format!("after update_b set b[2] = {:e} (presolve {}) objective {} but {} for a fresh solver", infv, presolve, s1.obj_val, s2.obj_val));
+                return Some((cls, format!("after update_b set b[2] = {:e} (presolve {}, bound {:e}) objective {} but {} for a fresh solver", newv, presolve, bound, s1.obj_val, s2.obj_val)));
             }
             if !presolve && !equil {
                 let same = s1.iterations == s2.iterations && s1.x.iter().zip(&s2.x).all(|(a, b)| a.to_bits() == b.to_bits());
-                if !same { return Some(format!("after update_b set b[2] = {:e} (presolve and equilibration off) the solve is not the fresh solver's bit for bit", infv)); }
+                if !same { return Some((cls, format!("after update_b set b[2] = {:e} (presolve and equilibration off, bound {:e}) the solve is not the fresh solver's bit for bit", newv, bound))); }
             }
             None
         }));
-        let m = match res { Ok(r) => r, Err(e) => Some(format!("panic: {}", crate::rec_ipm::panic_msg(e))) };
-        if let Some(m) = m {
-            out.push((if presolve { "update_introduces_infinite_bound".to_string() } else { "update_b_infinite_entry_uncapped".to_string() }, m));
+        clarabel::default_infinity();
+        match res {
+            Ok(Some((c, m))) => out.push((c.to_string(), m)),
+            Ok(None) => {}
+            Err(e) => out.push(("update_b_infinite_entry_panic".to_string(), format!("panic: {}", crate::rec_ipm::panic_msg(e)))),
         }
     }
     out
+}
+
+/// Updates of P on a solver built with a structurally empty P (a linear program): there is nothing to overwrite, so every
+/// non-empty argument form is malformed and must be refused, an empty one is accepted, and the next solve is the fresh solver's.
+pub fn empty_p_history(variant: usize) -> Vec<(String, String)> {
+    let all = seeds();
+    let seed = &all[variant % 2];
+    let equil = (variant / 2) % 2 == 0;
+    let res = catch_unwind(AssertUnwindSafe(|| -> Vec<(String, String)> {
+        let mut out = vec![];
+        let cur: [Vec<usize>; 4] = [vec![0; 3], vec![0; 2], vec![0; 3], vec![0; 3]];
+        let mut p = seed.problem(&cur, equil);
+        p.P = crate::problem::Csc::zeros(2, 2);
+        p.q = vec![-1.0, -1.0];                       // bounded over the seeds' feasible sets? not necessarily: verdicts are compared, whatever they are
+        let (P, A) = (p.P.to_clarabel(), p.A.to_clarabel());
+        let mut solver = DefaultSolver::new(&P, &p.q, &A, &p.b, &p.clarabel_cones(), p.settings());
+        solver.solve();
+        let full = CscMatrix::new(2, 2, vec![0, 1, 3], vec![0, 0, 1], vec![1.0, 0.5, 2.0]);
+        let forms: Vec<(&str, String, bool)> = vec![
+            ("a vector of 1 value", res_name(solver.update_P(&vec![1.0])), false),
+            ("a vector of 3 values", res_name(solver.update_P(&vec![1.0, 0.5, 2.0])), false),
+            ("a CSC matrix with 3 entries", res_name(solver.update_P(&full)), false),
+            ("an (index, value) pair at index 0", res_name(solver.update_P(&(vec![0usize], vec![1.0]))), false),
+            ("an empty vector", res_name(solver.update_P(&Vec::<f64>::new())), true),
+        ];
+        for (what, r, want_ok) in forms {
+            if (r == "Ok") != want_ok { out.push(("update_P_on_empty_P".to_string(), format!("update_P with {} on a solver whose P has no entries returned {}", what, r))); }
+        }
+        solver.solve();
+        let mut fresh = DefaultSolver::new(&P, &p.q, &A, &p.b, &p.clarabel_cones(), p.settings());
+        fresh.solve();
+        let (s1, s2) = (&solver.solution, &fresh.solution);
+        if class_of(s1.status) != class_of(s2.status) || (class_of(s1.status) == "solved" && (s1.obj_val - s2.obj_val).abs() > 1e-6 * (1.0 + s1.obj_val.abs())) {
+            out.push(("update_P_on_empty_P".to_string(), format!("after refused updates of an empty P the solver ends {:?} ({}) but a fresh solver ends {:?} ({})", s1.status, s1.obj_val, s2.status, s2.obj_val)));
+        }
+        out
+    }));
+    match res { Ok(v) => v, Err(e) => vec![("update_P_on_empty_P".to_string(), format!("panic: {}", crate::rec_ipm::panic_msg(e)))] }
 }
 
 /// A history through an overflowed solve: a problem whose cost is ~1e300 ends NumericalError with non-finite iterates
@@ -596,6 +642,7 @@ pub fn replay_file(path: &str, out: &str, seed: u64, every: usize) -> Value {
             n += 1;
             timed_done = true;
             for (class, m) in inf_bound_history(v as usize) { bad.push(json!({"behaviour": b, "variant": v, "mismatch": m, "class": class})); }
+            for (class, m) in empty_p_history(v as usize) { bad.push(json!({"behaviour": b, "variant": v, "mismatch": m, "class": class})); }
             continue;
         }
         if let Some(v) = b.get("overflow").and_then(|x| x.as_u64()) {
@@ -643,7 +690,7 @@ pub fn replay_file(path: &str, out: &str, seed: u64, every: usize) -> Value {
     if !timed_done {
         for v in 0..8usize {
             n += 1;
-            for (class, m) in inf_bound_history(v) {
+            for (class, m) in inf_bound_history(v).into_iter().chain(empty_p_history(v)) {
                 bad.push(json!({"behaviour": {"blocked": "none", "hist": [], "infb": v}, "variant": v, "mismatch": m, "class": class}));
             }
         }
